@@ -61,6 +61,10 @@ def workspaces(ck):
         main = (rng.choice(PREFIXES) + 'include "inc.td"%s' % e1 + rng.choice(PREFIXES) + 'include "sub.td"%s' % e1 + 'include "third.td"%s' % e1
                 + "class Top<int q> : Mid, Leaf {%s  let f = q;%s  Base b = Base<2, \"ü\">;%s}%s" % (e1, e1, e1, e1)
                 + "def top : Top<3> { int g = leafv; }%s" % e1
+                # references nested in arguments and wrapped over lines: the hints of an inner reference come after those of the outer
+                # one's later arguments, which stand on later lines
+                + "class Arg9<int a, int z = 0>; class Fn9<Arg9 b, int c, Arg9 d = Arg9<0>>;%s" % e1
+                + "def nest9 : Fn9<Arg9<1, /* \u65e5\u672c */ 5>,%s            2,%s   Arg9<3>> { Fn9 inner = Fn9<Arg9<4>,%s 6>; }%s" % (e1, e1, e1, e1)
                 + "foreach i = [1, 2] in {%s  def x#i : Undefined<i>;%s}%s" % (e1, e1, e1)
                 + 'include "missing.td"%s' % e1)
         files = {"inc.td": inc, "sub.td": sub, "third.td": third}
